@@ -28,13 +28,16 @@ class Normal(Distribution):
         self.std = std
 
     def pdf(self, x):
-        return np.prod(1/(self.std*np.sqrt(2*np.pi))*np.exp(-0.5*((x-self.mean)/self.std)**2))
+        mean, std = np.asarray(self.mean), np.asarray(self.std) # parameters may be given as lists
+        return np.prod(1/(std*np.sqrt(2*np.pi))*np.exp(-0.5*((x-mean)/std)**2))
 
     def logpdf(self, x):
-        return np.sum(-np.log(self.std*np.sqrt(2*np.pi))-0.5*((x-self.mean)/self.std)**2)
+        mean, std = np.asarray(self.mean), np.asarray(self.std) # parameters may be given as lists
+        return np.sum(-np.log(std*np.sqrt(2*np.pi))-0.5*((x-mean)/std)**2)
 
     def cdf(self, x):
-        return np.prod(0.5*(1 + erf((x-self.mean)/(self.std*np.sqrt(2)))))
+        mean, std = np.asarray(self.mean), np.asarray(self.std) # parameters may be given as lists
+        return np.prod(0.5*(1 + erf((x-mean)/(std*np.sqrt(2)))))
 
     def _sample(self,N=1, rng=None):
 
